@@ -177,3 +177,14 @@ fn c04_3w_seek_to() {
     kani::cover!(matches!(r0, Some((_, e)) if target > p0 && target >= e));
     kani::cover!(matches!(r0, Some((s, _)) if target <= p0 && target < s));
 }
+
+// @ob id=C04.1c,C01.1c strength=bounded tier=quick bound="Kani function contract (attributes injected on the real function, see kani/contracts.toml) proved for at most 4 wrap iterations" fn=sound/transport.rs::Transport::increment_position
+// @req the injected #[kani::requires]: loop_start < loop_end, position < usize::MAX, at most 4 wraps
+// @ens the injected #[kani::ensures]: loop region untouched; a stopped transport does not move; playing' == (position' < num_frames); the position ends below the loop end (or advanced by exactly one without a loop)
+#[kani::proof_for_contract(Transport::increment_position)]
+#[kani::unwind(6)]
+fn c04_1c_contract_increment_position() {
+    let mut t = Transport { position: kani::any(), loop_region: if kani::any() { Some((kani::any(), kani::any())) } else { None }, playing: kani::any() };
+    t.increment_position(kani::any());
+    kani::cover!(t.playing);
+}
